@@ -1,1 +1,180 @@
-From Verif Require Import C02.Model.
+(* C02 — lemmas: decimal text round trip, big.Int clamping, float64 conversions (truncation toward zero and saturation; exactness of
+   AsFloat64 below 2^53 and its sign), narrowing predicates. *)
+From Coq Require Import ZArith List Bool Lia.
+From Verif Require Import common.Word64 common.Word64Facts C01.Model C01.ProofsArith C01.ProofsInt C03.Model C04.Model C04.Proofs C02.Model.
+Import ListNotations.
+Open Scope Z_scope.
+Ltac Zify.zify_post_hook ::= Z.div_mod_to_equations.
+
+(* ---- words and values *)
+Lemma of_uval_uval u : wf u -> of_uval (uval u) = u.
+Proof. destruct u as [h l]. unfold wf, of_uval, uval. cbn [hi lo]. intros [? ?]. f_equal; lia. Qed.
+Lemma of_uval_wf v : wf (of_uval v).
+Proof. unfold wf, of_uval. cbn [hi lo]. split; lia. Qed.
+Lemma uval_of_uval v : uval (of_uval v) = v mod P128.
+Proof. unfold uval, of_uval. cbn [hi lo]. lia. Qed.
+Lemma sval_range i : wf i -> - (P128 / 2) <= sval i < P128 / 2.
+Proof. destruct i as [h l]. unfold wf, sval, uval. cbn [hi lo]. intros [? ?]. destruct (SIGN <=? h) eqn:E; lia. Qed.
+Lemma of_uval_sval i : wf i -> of_uval (sval i) = i.
+Proof. destruct i as [h l]. unfold wf, of_uval, sval, uval. cbn [hi lo]. intros [? ?]. destruct (SIGN <=? h) eqn:E; f_equal; lia. Qed.
+Lemma sval_of_uval v : - (P128 / 2) <= v < P128 / 2 -> sval (of_uval v) = v.
+Proof. intro H. unfold sval, uval, of_uval. cbn [hi lo]. destruct (SIGN <=? v mod P128 / W) eqn:E; lia. Qed.
+
+(* ---- big.Int *)
+Theorem UFromBig_clamps z : wf (UFromBig z) /\ uval (UFromBig z) = Z.max 0 (Z.min z (P128 - 1)).
+Proof.
+  unfold UFromBig. destruct (z <? 0) eqn:A; [split; [unfold wf, zero; cbn; lia|unfold uval, zero; cbn; lia]|].
+  destruct (P128 <=? z) eqn:B; [split; [unfold wf, MaxU; cbn; lia|unfold uval, MaxU; cbn; lia]|].
+  split; [apply of_uval_wf|rewrite uval_of_uval; lia].
+Qed.
+Theorem IFromBig_clamps z : wf (IFromBig z) /\ sval (IFromBig z) = Z.max (- (P128 / 2)) (Z.min z (P128 / 2 - 1)).
+Proof.
+  unfold IFromBig. destruct (z <? - (P128 / 2)) eqn:A; [split; [unfold wf, MinI; cbn; lia|unfold sval, uval, MinI; cbn; lia]|].
+  destruct (P128 / 2 <=? z) eqn:B; [split; [unfold wf, MaxI; cbn; lia|unfold sval, uval, MaxI; cbn; lia]|].
+  split; [apply of_uval_wf|rewrite sval_of_uval; lia].
+Qed.
+Theorem big_round_trip u : wf u -> UFromBig (UAsBig u) = u /\ IFromBig (IAsBig u) = u.
+Proof.
+  intro H. pose proof (uval_range u H). pose proof (sval_range u H). unfold UFromBig, IFromBig, UAsBig, IAsBig. split.
+  - destruct (uval u <? 0) eqn:A; [lia|]. destruct (P128 <=? uval u) eqn:B; [lia|]. apply of_uval_uval, H.
+  - destruct (sval u <? - (P128 / 2)) eqn:A; [lia|]. destruct (P128 / 2 <=? sval u) eqn:B; [lia|]. apply of_uval_sval, H.
+Qed.
+
+(* ---- decimal text *)
+Theorem text_round_trip u : wf u -> UFromString (UString u) = Some u /\ IFromString (IString u) = Some u.
+Proof.
+  intro H. pose proof (uval_range u H) as Ru. pose proof (sval_range u H) as Rs. destruct (big_round_trip u H) as [Bu Bi].
+  unfold UFromString, IFromString, UString, IString. split.
+  - assert (E : udec (uval u) = sdec (uval u)) by (unfold sdec; destruct (uval u <? 0) eqn:A; [lia|reflexivity]).
+    rewrite E, parse_print_signed by (change (10 ^ 45) with 1000000000000000000000000000000000000000000000; lia). f_equal. exact Bu.
+  - rewrite parse_print_signed by (change (10 ^ 45) with 1000000000000000000000000000000000000000000000; lia). f_equal. exact Bi.
+Qed.
+
+(* ---- float64 -> 128 bits: truncation toward zero, saturation *)
+Definition fval_trunc (neg : bool) (m e : Z) : Z := if neg then - trunc_abs m e else trunc_abs m e.
+(* the comparisons are on the exact value m * 2^e; for an integer bound they say this about the truncation *)
+Lemma abs_le_true m e c : 0 <= m -> 0 <= c -> abs_le m e c = true -> trunc_abs m e <= c.
+Proof.
+  intros Hm Hc. unfold abs_le, trunc_abs. destruct (0 <=? e) eqn:E; [rewrite Z.leb_le; auto|].
+  apply Z.leb_gt in E. assert (P : 0 < 2 ^ (- e)) by (apply Z.pow_pos_nonneg; lia). rewrite Z.leb_le. intro H.
+  apply Z.div_le_upper_bound; lia.
+Qed.
+Lemma abs_le_false m e c : 0 <= m < 2 ^ 53 -> 2 ^ 53 <= c -> abs_le m e c = false -> 0 <= e /\ c < trunc_abs m e.
+Proof.
+  intros Hm Hc. unfold abs_le, trunc_abs. destruct (0 <=? e) eqn:E; [apply Z.leb_le in E; rewrite Z.leb_gt; auto|].
+  apply Z.leb_gt in E. assert (P : 1 <= 2 ^ (- e)) by (assert (0 < 2 ^ (- e)) by (apply Z.pow_pos_nonneg; lia); lia). rewrite Z.leb_gt. intro H.
+  change (2 ^ 53) with 9007199254740992 in *. nia.
+Qed.
+Lemma abs_lt_true m e c : 0 <= m -> 0 < c -> abs_lt m e c = true -> trunc_abs m e < c.
+Proof.
+  intros Hm Hc. unfold abs_lt, trunc_abs. destruct (0 <=? e) eqn:E; [rewrite Z.ltb_lt; auto|].
+  apply Z.leb_gt in E. assert (P : 0 < 2 ^ (- e)) by (apply Z.pow_pos_nonneg; lia). rewrite Z.ltb_lt. intro H. apply Z.div_lt_upper_bound; lia.
+Qed.
+Lemma abs_lt_false m e c : 0 <= m < 2 ^ 53 -> 2 ^ 53 <= c -> abs_lt m e c = false -> 0 <= e /\ c <= trunc_abs m e.
+Proof.
+  intros Hm Hc. unfold abs_lt, trunc_abs. destruct (0 <=? e) eqn:E; [apply Z.leb_le in E; rewrite Z.ltb_ge; auto|].
+  apply Z.leb_gt in E. assert (P : 1 <= 2 ^ (- e)) by (assert (0 < 2 ^ (- e)) by (apply Z.pow_pos_nonneg; lia); lia). rewrite Z.ltb_ge. intro H.
+  change (2 ^ 53) with 9007199254740992 in *. nia.
+Qed.
+
+Lemma trunc_nonneg m e : 0 <= m -> 0 <= trunc_abs m e.
+Proof.
+  intro Hm. unfold trunc_abs. destruct (0 <=? e) eqn:E; [apply Z.leb_le in E; apply Z.mul_nonneg_nonneg; [lia|apply Z.pow_nonneg; lia]|apply Z.div_pos; [lia|apply Z.pow_pos_nonneg; lia]].
+Qed.
+Lemma trunc_small m e : 0 <= m -> e < 0 -> trunc_abs m e <= m.
+Proof.
+  intros Hm He. unfold trunc_abs. destruct (0 <=? e) eqn:E; [apply Z.leb_le in E; lia|]. assert (P : 0 < 2 ^ (- e)) by (apply Z.pow_pos_nonneg; lia).
+  apply Z.div_le_upper_bound; [exact P|]. nia.
+Qed.
+(* no double lies strictly between 2^128 - 2^75 and 2^128 *)
+Lemma no_double_in_the_gap m e : 0 <= m < 2 ^ 53 -> P128 - 2 ^ 75 < trunc_abs m e -> P128 <= trunc_abs m e.
+Proof.
+  intros Hm H. destruct (Z_lt_dec e 0) as [He|He].
+  - pose proof (trunc_small m e ltac:(lia) He). change (2 ^ 53) with 9007199254740992 in Hm. change (2 ^ 75) with 37778931862957161709568 in H. lia.
+  - unfold trunc_abs in *. destruct (0 <=? e) eqn:E; [|apply Z.leb_gt in E; lia]. destruct (Z_lt_dec e 75) as [Hs|Hb].
+    + exfalso. assert (2 ^ e <= 2 ^ 74) by (apply Z.pow_le_mono_r; lia). change (2 ^ 74) with 18889465931478580854784 in *. change (2 ^ 53) with 9007199254740992 in Hm.
+      change (2 ^ 75) with 37778931862957161709568 in H. assert (0 < 2 ^ e) by (apply Z.pow_pos_nonneg; lia). nia.
+    + replace e with (75 + (e - 75)) in * by lia. rewrite Z.pow_add_r in * by lia. set (k := 2 ^ (e - 75)) in *. assert (0 < k) by (apply Z.pow_pos_nonneg; lia).
+      change (2 ^ 75) with 37778931862957161709568 in *. change (2 ^ 53) with 9007199254740992 in Hm. nia.
+Qed.
+
+Theorem Uint128FromFloat64_spec neg m e : 0 <= m < 2 ^ 53 ->
+  wf (Uint128FromFloat64 (FFin neg m e)) /\ uval (Uint128FromFloat64 (FFin neg m e)) = Z.max 0 (Z.min (fval_trunc neg m e) (P128 - 1)).
+Proof.
+  intro Hm. pose proof (trunc_nonneg m e ltac:(lia)) as T.
+  unfold Uint128FromFloat64, fval_trunc. destruct neg; cbn [orb].
+  - split; [unfold wf, zero; cbn; lia|unfold uval, zero; cbn; lia].
+  - destruct (m =? 0) eqn:M.
+    + apply Z.eqb_eq in M. subst. assert (trunc_abs 0 e = 0) by (unfold trunc_abs; destruct (0 <=? e) eqn:E0; [lia|apply Z.leb_gt in E0; apply Z.div_0_l; apply Z.pow_nonzero; lia]).
+      split; [unfold wf, zero; cbn; lia|unfold uval, zero; cbn; lia].
+    + destruct (abs_le m e (W - 2048)) eqn:A.
+      * apply abs_le_true in A; [|lia|lia]. split; [unfold wf; cbn; lia|unfold uval; cbn; lia].
+      * destruct (abs_le m e (P128 - 2 ^ 75)) eqn:B.
+        -- apply abs_le_true in B; [|lia|change (2 ^ 75) with 37778931862957161709568; lia]. change (2 ^ 75) with 37778931862957161709568 in B.
+           split; [unfold wf; cbn [hi lo]; lia|unfold uval; cbn [hi lo]; lia].
+        -- split; [unfold wf, MaxU; cbn; lia|]. unfold uval, MaxU. cbn [hi lo].
+           assert (NB : P128 - 2 ^ 75 < trunc_abs m e) by (apply (abs_le_false m e (P128 - 2 ^ 75)); [exact Hm|change (2 ^ 75) with 37778931862957161709568; change (2 ^ 53) with 9007199254740992; lia|exact B]).
+           pose proof (no_double_in_the_gap m e Hm NB). lia.
+Qed.
+
+Theorem Int128FromFloat64_spec neg m e : 0 <= m < 2 ^ 53 ->
+  wf (Int128FromFloat64 (FFin neg m e)) /\ sval (Int128FromFloat64 (FFin neg m e)) = Z.max (- (P128 / 2)) (Z.min (fval_trunc neg m e) (P128 / 2 - 1)).
+Proof.
+  intro Hm. pose proof (trunc_nonneg m e ltac:(lia)) as T. unfold Int128FromFloat64, fval_trunc.
+  destruct (m =? 0) eqn:M.
+  - apply Z.eqb_eq in M. subst. assert (Z0 : trunc_abs 0 e = 0) by (unfold trunc_abs; destruct (0 <=? e) eqn:E0; [lia|apply Z.leb_gt in E0; apply Z.div_0_l; apply Z.pow_nonzero; lia]).
+    rewrite Z0. split; [unfold wf, zero; cbn; lia|unfold sval, uval, zero; cbn; destruct neg; lia].
+  - set (t := trunc_abs m e) in *.
+    set (pos := if abs_le m e (W - 2048) then mk 0 t else if abs_lt m e (P128 / 2) then mk (t / W) (t mod W) else MaxI).
+    assert (P : wf pos /\ sval pos = Z.min t (P128 / 2 - 1) /\ (abs_lt m e (P128 / 2) = true -> t < P128 / 2)).
+    { unfold pos. destruct (abs_le m e (W - 2048)) eqn:A.
+      - apply abs_le_true in A; [|lia|lia]. fold t in A. split; [unfold wf; cbn; lia|]. split; [unfold sval, uval; cbn; lia|intros _; lia].
+      - destruct (abs_lt m e (P128 / 2)) eqn:B.
+        + apply abs_lt_true in B; [|lia|lia]. fold t in B. split; [unfold wf; cbn [hi lo]; lia|]. split; [|intros _; exact B].
+          unfold sval, uval. cbn [hi lo]. destruct (SIGN <=? t / W) eqn:S; lia.
+        + apply abs_lt_false in B; [|exact Hm|change (2 ^ 53) with 9007199254740992; lia]. fold t in B. split; [unfold wf, MaxI; cbn; lia|].
+          split; [unfold sval, uval, MaxI; cbn; lia|discriminate]. }
+    destruct P as (Wp & Sp & Lt). destruct neg; [|split; [exact Wp|lia]].
+    destruct (abs_lt m e (P128 / 2)) eqn:B.
+    + specialize (Lt eq_refl). destruct (Neg_spec pos Wp) as [Wn Sn]. split; [exact Wn|]. rewrite Sn, Sp. unfold ProofsInt.smod. lia.
+    + apply abs_lt_false in B; [|exact Hm|change (2 ^ 53) with 9007199254740992; lia]. fold t in B. split; [unfold wf, MinI; cbn; lia|unfold sval, uval, MinI; cbn; lia].
+Qed.
+
+Theorem FromFloat64_specials :
+  Uint128FromFloat64 FNaN = zero /\ Int128FromFloat64 FNaN = zero /\
+  Uint128FromFloat64 (FInf false) = MaxU /\ Uint128FromFloat64 (FInf true) = zero /\ Int128FromFloat64 (FInf false) = MaxI /\ Int128FromFloat64 (FInf true) = MinI.
+Proof. repeat split. Qed.
+
+(* ---- 128 bits -> float64: exact below 2^53, with the right sign and no negative zero *)
+Theorem AsFloat64_exact_below_2_53 u : wf u ->
+  (uval u < 2 ^ 53 -> UAsFloat64 u = (false, uval u)) /\ (- 2 ^ 53 < sval u < 2 ^ 53 -> IAsFloat64 u = (false, sval u) \/ (sval u < 0 /\ IAsFloat64 u = (true, sval u))).
+Proof.
+  destruct u as [h l]. unfold wf, UAsFloat64, IAsFloat64, uval, sval, round53, P53. cbn [hi lo]. intros [Hh Hl]. change (2 ^ 53) with 9007199254740992. split.
+  - intro H. assert (h = 0) by lia. subst. cbn. assert (E : l <? 9007199254740992 = true) by (apply Z.ltb_lt; lia). rewrite E. f_equal; lia.
+  - intro H. destruct (SIGN <=? h) eqn:S; unfold uval in *; cbn [hi lo] in *.
+    + right. apply Z.leb_le in S. assert (h = MAX64) by lia. subst h. split; [lia|]. change (MAX64 =? 0) with false. cbn [andb]. rewrite Z.eqb_refl. cbn [andb].
+      destruct (l =? 0) eqn:L0; [apply Z.eqb_eq in L0; lia|]. cbn [negb]. unfold not64.
+      assert (X : (MAX64 - l + 1) mod W = W - l) by (rewrite Z.mod_small by lia; lia). rewrite X.
+      assert (E : W - l <? 9007199254740992 = true) by (apply Z.ltb_lt; lia). rewrite E. f_equal; lia.
+    + left. apply Z.leb_gt in S. assert (h = 0) by lia. subst. cbn. assert (E : l <? 9007199254740992 = true) by (apply Z.ltb_lt; lia). rewrite E. f_equal; lia.
+Qed.
+
+(* ---- narrowing: the predicate holds exactly when the conversion keeps the value *)
+Theorem narrowing_spec u : wf u ->
+  (UIsInt128 u = true <-> sval u = uval u) /\ (UIsUint64 u = true <-> UAsUint64 u = uval u) /\
+  (IIsUint128 u = true <-> uval u = sval u) /\ (IIsInt64 u = true <-> IAsInt64 u = sval u) /\ (IIsUint64 u = true <-> IAsUint64 u = sval u).
+Proof.
+  destruct u as [h l]. unfold wf, UIsInt128, UIsUint64, UAsUint64, IIsUint128, IIsInt64, IAsInt64, IIsUint64, IAsUint64, sval, uval. cbn [hi lo]. intros [Hh Hl].
+  repeat split; intro H;
+    repeat match goal with
+           | H : _ && _ = true |- _ => apply andb_prop in H; destruct H
+           | H : _ || _ = true |- _ => apply orb_prop in H; destruct H
+           | H : (_ <? _) = true |- _ => apply Z.ltb_lt in H
+           | H : (_ <=? _) = true |- _ => apply Z.leb_le in H
+           | H : (_ =? _) = true |- _ => apply Z.eqb_eq in H
+           end;
+    try (destruct (SIGN <=? h) eqn:S; [apply Z.leb_le in S|apply Z.leb_gt in S]); try (destruct (SIGN <=? l) eqn:S2; [apply Z.leb_le in S2|apply Z.leb_gt in S2]);
+    try lia;
+    try (apply Z.ltb_lt; lia); try (apply Z.eqb_eq; lia);
+    try (apply orb_true_iff; destruct (Z_lt_dec h SIGN); [left|right]; apply andb_true_iff; split; try (apply Z.eqb_eq; lia); try (apply Z.ltb_lt; lia); try (apply Z.leb_le; lia)).
+Qed.
